@@ -61,7 +61,20 @@ pub fn gen_code(rng: &mut Rng) -> Code {
 }
 
 /// A value in the documented domain of `code`, with bounded unary quotients.
+/// Unary parts above 2^16 bits, used in about one value in 300 ("scale" runs).
+pub const BIG_QUOT: u64 = 70_000;
+
 pub fn gen_value(rng: &mut Rng, code: Code) -> u64 {
+    if rng.chance(1, 300) {
+        // scale: a unary part longer than 2^16 bits
+        let q = rng.range(65_500, BIG_QUOT);
+        match code {
+            Code::Unary => return q,
+            Code::Rice(k) if k < 40 => return (q << k) | (rng.next() & ((1u64 << k) - 1)),
+            Code::Golomb(b) if b < (1u64 << 40) => return q * b + rng.below(b),
+            _ => {}
+        }
+    }
     let maxv: u64 = match code {
         Code::Unary => MAX_QUOT,
         Code::Rice(k) => {
